@@ -34,7 +34,10 @@ VERIF = os.path.dirname(os.path.dirname(os.path.abspath(__file__)))
 NS, RD, BL, PK, DN, CX = range(6)
 
 
-def build_bmc(model, T, S, K, max_cancel=1):
+LEAK_BOUNDS = {'quick': [(3, -9, 1)], 'thorough': [(4, -13, 1)]}
+
+
+def build_bmc(model, T, S, K, max_cancel=1, prestart=False):
     import z3
     from z3 import If, And, Or, Not, Int, Bool, IntVal, BoolVal
     from checks import c20_model as M
@@ -83,6 +86,13 @@ def build_bmc(model, T, S, K, max_cancel=1):
         s.ncancel = IntVal(0)
         # ghost: what each task has added to each counter attribute and not taken back
         s.net = [IntVal(0)] * (T * max(1, len(attrs)))
+        if prestart:
+            # every task has been created, in index order, before the first step (saves T 'start' steps; the
+            # schedules in which a task is created later are those of the other configuration)
+            s.status = [IntVal(RD)] * T
+            s.inready = [BoolVal(True)] * T
+            s.rtick = [IntVal(t + 1) for t in range(T)]
+            s.nrt = IntVal(T + 1)
         return s
 
     def copy(s):
@@ -382,6 +392,55 @@ def replay_real(kinds, sched):
     return err, trace
 
 
+def probe_usable(kinds, sched):
+    """the 'leak' candidates are decided on the REAL class: run the schedule, let every remaining task finish
+    (open every parked critical section, run whatever is ready), then a fresh writer and a fresh reader must both get
+    in.  returns (violation text|None, trace)"""
+    from checks import c20_model as M
+    from pymap.concurrent import _AsyncioReadWriteLock
+    T = len(kinds)
+    r = M.Real(list(kinds) + ['w', 'r'], _AsyncioReadWriteLock)
+    err = None
+    try:
+        started = set()
+        for a in sched:
+            if a[0] == 'start':
+                started.add(a[1])
+            r.act(a)
+            if r.bad:
+                return r.bad, list(r.trace)
+
+        def settle():
+            for _ in range(200):
+                r.drain()
+                parked = [t for t in range(len(r.kinds)) if r.gates[t] is not None and not r.gates[t].done() and r.inside[t]]
+                if not parked:
+                    return
+                for t in parked:
+                    r.act(('open', t))
+        for t in range(T):
+            if t not in started and r.tasks[t] is None and any(a == ('start', t) for a in sched):
+                pass
+        settle()
+        stuck = [t for t in range(T) if r.tasks[t] is not None and not r.tasks[t].done()]
+        if stuck:
+            err = 'after every holder released, tasks %r still wait' % stuck
+        else:
+            for probe in (T, T + 1):
+                r.act(('start', probe))
+                settle()
+                if ('enter', probe) not in r.trace:
+                    err = ('the lock is unusable afterwards: every task has finished, yet a new %s never gets in '
+                           '(reader count %r, write mutex locked: %r)'
+                           % ('writer' if probe == T else 'reader', getattr(r.lock, '_counter', None),
+                              getattr(getattr(r.lock, '_write_lock', None), 'locked', lambda: None)()))
+                    break
+    finally:
+        trace = list(r.trace)
+        r.close()
+    return err, trace
+
+
 def cosimulate(model, n, seed, T=3, steps=30):
     from checks import c20_model as M
     from pymap.concurrent import _AsyncioReadWriteLock
@@ -442,6 +501,8 @@ def main(tier):
               % (mism, json.dumps(sample)[:400]))
         rc = 2
     bounds = [(2, 10, 1), (3, 10, 1), (3, 12, 0)] if tier == 'quick' else [(2, 14, 1), (3, 13, 1), (3, 15, 0), (4, 11, 1)]
+    # S < 0: every task created before the first step (|S| steps follow); only the 'leak' obligation is asked there
+    leak_bounds = LEAK_BOUNDS[tier]
     known, fixed = _known()
     results = []
     violations = []
@@ -450,7 +511,8 @@ def main(tier):
     solver_s = 0.0
     K = 14
     import multiprocessing as mp
-    jobs = [(T, S, C, name) for T, S, C in bounds for name in ('unwinding', 'exclusion', 'release_unlocked', 'deadlock')]
+    jobs = [(T, S, C, name) for T, S, C in bounds for name in ('unwinding', 'exclusion', 'release_unlocked', 'deadlock', 'leak')]
+    jobs += [(T, S, C, name) for T, S, C in leak_bounds for name in ('unwinding', 'leak')]
     with mp.get_context('fork').Pool(min(16, len(jobs))) as pool:
         outs = pool.map(_bmc_job, [(model, j, K) for j in jobs])
     byb = {}
@@ -470,7 +532,17 @@ def main(tier):
                 rc = rc or 2
                 continue
             kinds, sched = o['kinds'], [tuple(a) for a in o['schedule']]
-            err, trace = replay_real(kinds, sched)
+            if S < 0:
+                sched = [('start', t) for t in range(T)] + sched
+            if name == 'leak':
+                err, trace = probe_usable(kinds, sched)
+                if err is None:
+                    # the ghost counter is only a pointer to where to look: the real lock is usable after this
+                    # schedule, so this is not a violation (and no reason to call the run inconclusive)
+                    res[name] = 'sat-but-usable'
+                    continue
+            else:
+                err, trace = replay_real(kinds, sched)
             wit = {'obligation': name, 'kinds': kinds, 'schedule': [list(a) for a in sched], 'T': T, 'S': S,
                    'real_trace': [list(x) for x in trace]}
             if err is None:
@@ -518,11 +590,11 @@ def main(tier):
     ev = {
         'property_id': 'C20', 'tier': tier, 'seed': seed, 'level': 'model_checking',
         'coverage': {
-            'states': sum(r['T'] * r['S'] for r in results) + fl['paths'],
-            'transitions': sum(r['S'] for r in results) * 4 + fl['queries'],
+            'states': sum(r['T'] * abs(r['S']) for r in results) + fl['paths'],
+            'transitions': sum(abs(r['S']) for r in results) * 4 + fl['queries'],
             'traces_validated_against_impl': nco + len(violations) + sum(h['count'] for h in known_hits.values()) + fl['validated'],
             'samples': [{'bmc_bound': r} for r in results] + fl['samples'][:3],
-            'obligations': queries + fl['paths'], 'discharged': sum(1 for r in results for n in ('exclusion', 'release_unlocked', 'deadlock', 'unwinding') if r[n] == 'unsat') + fl['proved'],
+            'obligations': queries + fl['paths'], 'discharged': sum(1 for r in results for n in ('exclusion', 'release_unlocked', 'deadlock', 'unwinding', 'leak') if r.get(n) == 'unsat') + fl['proved'],
             'exhaustive': rc == 0,
             'explanation': 'z3 BMC over a guarded-command automaton compiled from the current source of '
                            '_AsyncioReadWriteLock (sha256 %s); the schedule and the task kinds are solver variables; '
@@ -561,7 +633,9 @@ def _bmc_job(arg):
     import z3
     model, (T, S, C, name), K = arg
     ts = time.time()
-    solver, acts, isw, obl = build_bmc(model, T, S, K, C)
+    prestart = S < 0
+    S = abs(S)
+    solver, acts, isw, obl = build_bmc(model, T, S, K, C, prestart)
     solver.set('timeout', 3000000)
     build_s = round(time.time() - ts, 1)
     tq = time.time()
